@@ -17,6 +17,8 @@ use std::sync::Arc;
 pub struct IoEngine;
 
 pub struct Prepared {
+    /// hook points passed by one fault-free recreate: a deterministic proxy for its cost
+    pub recreate_cost: u64,
     pub file: Vec<u8>,
     pub e: Vec<u8>,
     pub r: Vec<u8>,
@@ -37,10 +39,18 @@ pub fn prepare(file: Vec<u8>) -> Result<Prepared, String> {
     // precondition (C01 territory): the fault-free round trip exactly as the library's own tests
     // do it, Cursor -> Vec
     let mut plain_out: Vec<u8> = Vec::new();
+    let cost = std::rc::Rc::new(std::cell::Cell::new(0u64));
+    let cost2 = cost.clone();
+    // a block costs far more than a token (tables are rebuilt per block)
+    let prev_handler = preflate_rs::verif_hooks::set_handler(Some(Box::new(move |s| {
+        cost2.set(cost2.get() + if s == preflate_rs::verif_hooks::Site::RecreateBlocksBlock { 24 } else { 1 })
+    })));
     let res = catch_unwind(AssertUnwindSafe(|| {
         let mut cur = std::io::Cursor::new(&e[..]);
         preflate_rs::recreated_zlib_chunks(&mut cur, &mut plain_out)
     }));
+    preflate_rs::verif_hooks::set_handler(prev_handler);
+    let recreate_cost = cost.get();
     match res {
         Ok(Ok(())) => {}
         Ok(Err(err)) => return Err(format!("recreate_err:{}", err.exit_code().as_integer_error_code())),
@@ -73,6 +83,7 @@ pub fn prepare(file: Vec<u8>) -> Result<Prepared, String> {
     d.dedup();
     let wl_hash = hash_bytes(&file);
     Ok(Prepared {
+        recreate_cost,
         r: file.clone(),
         file,
         e,
@@ -248,7 +259,7 @@ fn plan_key(plan: &IoPlan, fired: &[usize]) -> u64 {
         let x = &plan.faults[i];
         d.u64(x.side as u64);
         d.u64(match x.kind {
-            FaultKind::Hard(k) => 0x10 + k as u64 + ((x.arg as u64 % 4) << 8) + ((x.arg as u64 & 0x100) << 4),
+            FaultKind::Hard(k) => 0x10 + k as u64 + (((x.arg as u64 & 0xff) % 5) << 8) + ((x.arg as u64 & 0x100) << 4),
             FaultKind::Interrupted => 0x30 + x.arg.clamp(1, 3) as u64,
             FaultKind::Zero => 0x40 + ((x.arg as u64 & 0x100) >> 4),
         });
@@ -309,6 +320,8 @@ fn job_workload(master: u64, job: u64, tier: Tier) -> Workload {
 }
 
 struct JobState<'a> {
+    /// abstract fault states for which a fault-free follow-up call has already been made
+    followed: HashSet<u64>,
     prep: &'a Prepared,
     ctx: &'a JobCtx,
     res: JobResult,
@@ -327,8 +340,55 @@ impl<'a> JobState<'a> {
         announce_run(ctx, || replay_doc(prep, Some((ctx.master_seed, ctx.job, ctx.tier.name())), plan, false));
         let out = execute(prep, plan);
         self.account(plan, &out);
-        if let Some((clause, what)) = judge(prep, &out) {
-            let (mplan, mout) = minimise(prep, plan, &clause);
+        let mut verdict = judge(prep, &out);
+        // once faults stop the call must behave as if nothing had happened: after a faulted run a
+        // fault-free run follows on the same thread (first time per abstract fault state and for
+        // one in 16 of the others) and must reproduce the file exactly
+        if verdict.is_none() && !out.trace.fired.is_empty() {
+            let mut k = Digest::default();
+            for &i in out.trace.fired.iter() {
+                let f = &plan.faults[i];
+                k.u64(f.side as u64);
+                k.u64(match f.kind {
+                    FaultKind::Hard(_) => 1,
+                    FaultKind::Interrupted => 2,
+                    FaultKind::Zero => 3,
+                });
+                if f.side == Side::Src {
+                    let (ph, ck) = prep.layout.phase_at(f.at);
+                    k.u64(ph as u64);
+                    k.u64(ck as u64);
+                } else {
+                    k.u64(prep.dst_bounds.binary_search(&f.at).is_ok() as u64);
+                    let idx = prep.dst_bounds.partition_point(|&b| b <= f.at);
+                    k.u64((idx.min(40)) as u64);
+                }
+            }
+            k.u64(match out.result {
+                CallResult::Ok => 0,
+                CallResult::Err(_) => 1,
+                CallResult::Panic(_) => 2,
+            });
+            if self.followed.insert(k.0) || self.res.evaluations % 16 == 0 {
+                let f = execute(prep, &IoPlan::clean());
+                self.res.bump("followup_runs_after_a_fault");
+                self.digest.u64(f.digest);
+                if f.result != CallResult::Ok || f.accepted != prep.r {
+                    verdict = Some((
+                        "degraded_after_fault".into(),
+                        format!(
+                            "after a run with an injected fault ({:?}), a fault-free call on the same thread returned {:?} with {} of {} bytes",
+                            out.result,
+                            f.result,
+                            f.accepted.len(),
+                            prep.r.len()
+                        ),
+                    ));
+                }
+            }
+        }
+        if let Some((clause, what)) = verdict {
+            let (mplan, mout) = if clause == "degraded_after_fault" { (plan.clone(), execute(prep, plan)) } else { minimise(prep, plan, &clause) };
             let (_c, mwhat) = judge(prep, &mout).unwrap_or((clause.clone(), what));
             let key = violation_key(prep, &clause, &mplan, &mout);
             let mut doc = replay_doc(prep, Some((ctx.master_seed, ctx.job, ctx.tier.name())), &mplan, true);
@@ -358,7 +418,7 @@ impl<'a> JobState<'a> {
             let side = if f.side == Side::Src { "src" } else { "dst" };
             let kind = match f.kind {
                 FaultKind::Hard(k) => {
-                    self.res.bump(&format!("fault.error_flavour.{}", FLAVOURS[f.arg as usize % 4]));
+                    self.res.bump(&format!("fault.error_flavour.{}", FLAVOURS[((f.arg & 0xff) % NFLAVOURS) as usize]));
                     format!("hard.{}", HARD_KINDS[k as usize % HARD_KINDS.len()].1)
                 }
                 FaultKind::Interrupted => "interrupted".to_string(),
@@ -682,6 +742,7 @@ impl Engine for IoEngine {
             res.bump("workloads_without_expanded_stream");
         }
         let mut st = JobState {
+            followed: HashSet::new(),
             prep: &prep,
             ctx,
             res,
@@ -705,6 +766,12 @@ impl Engine for IoEngine {
         let mid = elen <= if thorough { 16 * 1024 } else { 6 * 1024 };
         let small = elen + rlen <= if thorough { 6 * 1024 } else { 3 * 1024 };
         let min_k = ((elen + rlen) / 3000) as u32;
+        // expensive reconstructions (tens of thousands of tokens or blocks per call): enumerate
+        // every `stride`-th offset plus all near-boundary offsets, and fewer seeded plans
+        let stride = (prep.recreate_cost / 8000).clamp(1, 64) as usize;
+        if stride > 1 {
+            st.res.bump("workloads_with_thinned_enumeration");
+        }
         let modes: [(Frag, bool); 4] = [
             (Frag::Whole, elen + rlen <= if thorough { 160 * 1024 } else { 40 * 1024 }),
             (Frag::Boundary(0), full),
@@ -712,8 +779,14 @@ impl Engine for IoEngine {
             (Frag::One, small),
         ];
         for (mi, (mode, all)) in modes.iter().enumerate() {
-            let src_offsets: Vec<u64> = if *all {
+            let src_offsets: Vec<u64> = if *all && stride == 1 {
                 (0..=elen).collect()
+            } else if *all {
+                let mut v = src_near.clone();
+                v.extend((0..=elen).step_by(stride));
+                v.sort();
+                v.dedup();
+                v
             } else {
                 let mut v = src_near.clone();
                 for _ in 0..256 {
@@ -731,14 +804,20 @@ impl Engine for IoEngine {
                         side: Side::Src,
                         kind: FaultKind::Hard(((n + mi) % HARD_KINDS.len()) as u8),
                         at: off,
-                        arg: ((n / HARD_KINDS.len()) % 4) as u32,
+                        arg: ((n / HARD_KINDS.len()) % NFLAVOURS as usize) as u32,
                     }],
                     tail_seed: off ^ 0x77,
                 };
                 st.run(&plan);
             }
-            let dst_offsets: Vec<u64> = if *all {
+            let dst_offsets: Vec<u64> = if *all && stride == 1 {
                 (0..=rlen).collect()
+            } else if *all {
+                let mut v = dst_near.clone();
+                v.extend((0..=rlen).step_by(stride));
+                v.sort();
+                v.dedup();
+                v
             } else {
                 let mut v = dst_near.clone();
                 for _ in 0..256 {
@@ -756,14 +835,14 @@ impl Engine for IoEngine {
                         side: Side::Dst,
                         kind: FaultKind::Hard(((n + mi + 3) % HARD_KINDS.len()) as u8),
                         at: off,
-                        arg: ((n / HARD_KINDS.len() + 1) % 4) as u32,
+                        arg: ((n / HARD_KINDS.len() + 1) % NFLAVOURS as usize) as u32,
                     }],
                     tail_seed: off ^ 0x99,
                 };
                 st.run(&plan);
             }
         }
-        if full {
+        if full && stride == 1 {
             st.res.bump("workloads_with_complete_single_fault_enumeration");
         }
 
@@ -844,7 +923,7 @@ impl Engine for IoEngine {
                 }
             }
         };
-        for _ in 0..nrand {
+        for _ in 0..(nrand / stride) {
             let nf = rng.range(1, 4) as usize;
             let mut faults = Vec::with_capacity(nf);
             for _ in 0..nf {
@@ -864,7 +943,7 @@ impl Engine for IoEngine {
                     at,
                     // burst length for EINTR, error construction flavour for hard errors
                     arg: match kind {
-                        FaultKind::Hard(_) => rng.below(4) as u32 | if rng.chance(1, 4) { STICKY } else { 0 },
+                        FaultKind::Hard(_) => rng.below(NFLAVOURS as u64) as u32 | if rng.chance(1, 4) { STICKY } else { 0 },
                         FaultKind::Zero => if rng.chance(1, 3) { STICKY } else { 0 },
                         FaultKind::Interrupted => rng.range(1, 3) as u32,
                     },
@@ -922,7 +1001,17 @@ impl Engine for IoEngine {
             }
         };
         let out = execute(&prep, &plan);
-        match judge(&prep, &out) {
+        let mut verdict = judge(&prep, &out);
+        if verdict.is_none() && !out.trace.fired.is_empty() {
+            let f = execute(&prep, &IoPlan::clean());
+            if f.result != CallResult::Ok || f.accepted != prep.r {
+                verdict = Some((
+                    "degraded_after_fault".into(),
+                    format!("after the faulted run a fault-free call on the same thread returned {:?} with {} of {} bytes", f.result, f.accepted.len(), prep.r.len()),
+                ));
+            }
+        }
+        match verdict {
             Some((clause, what)) => ReplayOutcome {
                 clause: Some(clause),
                 digest: out.digest,
